@@ -99,8 +99,12 @@ func newCrypt(name string) kcp.BlockCrypt {
 	return nil
 }
 
+var minRun = time.Duration(vh.EnvInt("RACE_MS", 40)) * time.Millisecond
+
 // runProgram: real time (the race detector sees more with true parallelism), in-memory network, background traffic.
-func runProgram(cfg cfgT, ms []method, seed int64) {
+func runProgram(cfg cfgT, ms []method, seed int64, accepted bool) {
+	// the shared entropy source reseeds itself every 2^24 draws: position it so that this program's traffic crosses the boundary
+	kcp.VerifEntropyNearReseed(uint64(20 + seed%300))
 	hub := simnet.NewHub()
 	lc, _ := hub.Listen("10.0.0.1:1000")
 	cc, _ := hub.Listen("10.0.0.2:2000")
@@ -150,8 +154,13 @@ func runProgram(cfg cfgT, ms []method, seed int64) {
 		}()
 	}
 	pump(srv, cli)
+	pump(cli, srv)
 	if srv2 != nil {
 		pump(cli2, srv2)
+	}
+	target := cli
+	if accepted {
+		target = srv // the session created by the listener: fed by Listener.packetInput, no receive goroutine of its own
 	}
 	var wg sync.WaitGroup
 	for i, m := range ms {
@@ -159,20 +168,24 @@ func runProgram(cfg cfgT, ms []method, seed int64) {
 		go func(i int, m method) {
 			defer wg.Done()
 			r := rand.New(rand.NewSource(seed + int64(i)))
-			for k := 0; k < 6; k++ {
-				m.Run(cli, l, r)
+			// at least 6 calls and at least RACE_MS of wall time, so that every method overlaps the other goroutine's calls and the
+			// library's own receive / post-processing / update goroutines
+			for k, t0 := 0, time.Now(); k < 6 || (time.Since(t0) < minRun && k < 400); k++ {
+				m.Run(target, l, r)
 			}
 		}(i, m)
 	}
 	wg.Wait()
 	close(stop)
-	bg.Wait()
+	// closing the sessions wakes the background readers/writers whatever the program did to the deadlines
+	// (a program may have cleared the read deadline the pump had set: its Read would otherwise wait for data for ever)
 	cli.Close()
 	cli2.Close()
 	srv.Close()
 	if srv2 != nil {
 		srv2.Close()
 	}
+	bg.Wait()
 	l.Close()
 	lc.Close()
 	cc.Close()
@@ -189,6 +202,7 @@ func TestRacePrograms(t *testing.T) {
 	type progJ struct {
 		Ms  []string `json:"ms"`
 		Cfg string   `json:"cfg"`
+		Tgt string   `json:"tgt"`
 	}
 	byName := map[string]method{}
 	for _, m := range ms {
@@ -197,6 +211,7 @@ func TestRacePrograms(t *testing.T) {
 	cfgByName := map[string]cfgT{"nil/0/0": cfgs[0], "aes/2/1": cfgs[1], "sm4/0/0": cfgs[2], "gcm/3/2": cfgs[3], "salsa20/10/3": cfgs[4]}
 	var progs [][]method
 	var progCfg []cfgT
+	var progAcc []bool
 	in := vh.EnvStr("VERIF_IN", "")
 	if in == "" {
 		t.Skip("VERIF_IN not set")
@@ -217,6 +232,7 @@ func TestRacePrograms(t *testing.T) {
 		}
 		progs = append(progs, p)
 		progCfg = append(progCfg, cfgByName[pj.Cfg])
+		progAcc = append(progAcc, pj.Tgt == "accepted")
 	}
 	f.Close()
 	_ = triples
@@ -230,13 +246,14 @@ func TestRacePrograms(t *testing.T) {
 		for _, m := range p {
 			names += m.Name + " "
 		}
-		list = append(list, fmt.Sprintf("%s| %s/%d/%d", names, cfg.Cipher, cfg.D, cfg.P))
+		acc := progAcc[pi]
+		list = append(list, fmt.Sprintf("%s| %s/%d/%d on the %s session", names, cfg.Cipher, cfg.D, cfg.P, map[bool]string{false: "dialled", true: "accepted"}[acc]))
 		wg.Add(1)
 		sem <- struct{}{}
 		go func(p []method, cfg cfgT, seed int64) {
 			defer wg.Done()
 			defer func() { <-sem }()
-			runProgram(cfg, p, seed)
+			runProgram(cfg, p, seed, acc)
 		}(p, cfg, rng.Int63())
 	}
 	wg.Wait()
